@@ -329,6 +329,13 @@ def run(ctx):
         NEARPAIRS = [x for i, x in enumerate(NEARPAIRS) if i % 3 == 0]
     for i in range(len(NEARPAIRS)):
         jobs.append(("nearpair", i))
+    # degenerate version pairs: one side defines nothing, only types, only protocols
+    EVOSHAPES = {"nothing": "# nothing here\n", "only-alias": "A: int\n", "only-record": "R: !record\n  fields:\n    a: int\n",
+                 "only-protocol": "P: !protocol\n  sequence:\n    a: int\n", "two-protocols": "P: !protocol\n  sequence:\n    a: int\nQ: !protocol\n  sequence:\n    r: string\n",
+                 "protocol-and-record": "R: !record\n  fields:\n    a: int\nP: !protocol\n  sequence:\n    a: R\n"}
+    EVOPAIRS = [(a, b) for a in EVOSHAPES for b in EVOSHAPES]
+    for i in range(len(EVOPAIRS)):
+        jobs.append(("evoshape", i))
     n_expr = len(fuzzgen.EXPRS) + (60 if quick else 2000)
     for i in range(n_expr):
         jobs.append(("expr", i))
@@ -373,6 +380,12 @@ def run(ctx):
             files = {root_rel + "/_package.yml": files[root_rel + "/_package.yml"] if (root_rel + "/_package.yml") in files and "imports" not in files[root_rel + "/_package.yml"] else "namespace: %s\njson:\n  outputDir: ../out/json\n" % pkg.ns,
                      root_rel + "/model.yml": rules.HELPERS + rules.embed(pos, ty, "Inj") + (second or "")}
             desc += " rule construct %s at position %s%s" % (rid, pos, " + a second violating definition" if second else "")
+        elif kind == "evoshape":
+            a, b = EVOPAIRS[i]
+            files = {root_rel + "/_package.yml": "namespace: %s\nversions:\n  v0: ../evoold\njson:\n  outputDir: ../out/json\ncpp:\n  sourcesOutputDir: ../out/cpp\n  generateCMakeLists: false\n" % pkg.ns,
+                     root_rel + "/model.yml": EVOSHAPES[b],
+                     os.path.join(os.path.dirname(root_rel), "evoold/_package.yml"): "namespace: %s\n" % pkg.ns, os.path.join(os.path.dirname(root_rel), "evoold/model.yml"): EVOSHAPES[a]}
+            desc += " previous version '%s', latest '%s'" % (a, b)
         elif kind == "nearpair":
             ta, tb, ctxk = NEARPAIRS[i]
             qa, qb = "'%s'" % ta, "'%s'" % tb
@@ -449,7 +462,7 @@ def run(ctx):
         ctx.case(key)
         ctx.count("kind." + kind)
         procs = {"validate": cli.run_cli("validate", pkgdir, home)}
-        if i % 2 == 0 or kind in ("nest", "manifest", "tagkind", "mtagkind", "rules", "nearpair"):
+        if i % 2 == 0 or kind in ("nest", "manifest", "tagkind", "mtagkind", "rules", "nearpair", "evoshape"):
             procs["generate"] = cli.run_cli("generate", pkgdir, home)
         nviol = len(ctx.violations) + sum(v["n"] for v in ctx.known_hits.values())
         judge(ctx, case_dir, pkgdir, kind, desc, procs)
